@@ -103,10 +103,31 @@ def main():
     B1 = place(M.distort(M.cube(face_domains=True), rng0, **mild), (3.0, 0.4, -0.2), 0.8)                      # 12 elements, closed
     B2 = place(M.assign_domains(M.distort(M.screen(3), rng0, **mild), rng0, 2, values=[1, 5]), (0.3, 0.2, 1.4), 1.5)  # screen near A1 (0.2 D)
     A2 = place(M.distort(M.screen(2), rng0, **mild), (10.0, -20.0, 5.0), 2.0)
+    def cloud(m):
+        P = m.V[:, m.E]   # (3, 3, ne)
+        return np.hstack([m.V, P.mean(axis=1), 0.5 * (P[:, 0] + P[:, 1]), 0.5 * (P[:, 1] + P[:, 2]), 0.5 * (P[:, 2] + P[:, 0])])
+
+    def separated(a, b, frac=0.25):
+        """The property speaks of DISJOINT grids: after the random rotation a screen may cut through its neighbour (seen at
+        VERIF_SEED=3: O(1) quadrature error on intersecting elements, a false alarm of the convergence oracle). Move `b`
+        away from `a` along the line of centres until the sampled distance is at least frac x the smaller diameter."""
+        dmin = frac * min(a.diameter(), b.diameter())
+        direction = b.V.mean(axis=1) - a.V.mean(axis=1)
+        direction = direction / max(np.linalg.norm(direction), 1e-300)
+        for _ in range(60):
+            ca, cb = cloud(a), cloud(b)
+            dist = np.sqrt(((ca[:, :, None] - cb[:, None, :]) ** 2).sum(axis=0)).min()
+            if dist >= dmin:
+                break
+            b = b.copy(b.name)
+            b.V = b.V + (0.5 * dmin) * direction[:, None]
+        return b
+
+    B1, B2 = separated(A1, B1), separated(A1, B2)
     pairs = [("octa|cube", A1, B1), ("octa|screen_near", A1, B2), ("screen|screen_far", A2, B2)]
     if not ctx.quick:
         pairs += [("cube|octa", B1, A1), ("torus|octa", place(M.distort(M.torus(6, 4), rng0, **mild), (0, 0, 4.0)), A1),
-                  ("screen|cube", B2, place(M.cube(face_domains=True), (-2.0, 0.5, 0.3), 0.6))]
+                  ("screen|cube", B2, separated(B2, place(M.cube(face_domains=True), (-2.0, 0.5, 0.3), 0.6)))]
     if ctx.worker == "san":
         pairs = pairs[:2]
     scal = [("laplace", "single_layer", None), ("laplace", "double_layer", None), ("helmholtz", "single_layer", 1.4 + 0.3j), ("helmholtz", "double_layer", 0.9),
